@@ -6,7 +6,7 @@
    Computed here: MODEL (RopeScopes.v) against rope, SPEC (Scoping.v) against CPython, and - inside the
    theorem's domain - MODEL against SPEC (cannot differ while the theorems are in force). *)
 From Coq Require Import List NArith Bool PeanoNat.
-From RopeVerif.C15 Require Import Syntax Scoping RopeScopes Fragment.
+From RopeVerif.C15 Require Import Syntax Scoping RopeScopes Fragment Layout.
 Import ListNotations.
 
 Definition scope_obs := (path * skind * (N * N) * list ident)%type.
@@ -79,7 +79,8 @@ Definition model_lines (lay : list lineinfo) (rt : rscope) : list path :=
      4        MODEL vs rope: lookups          5  MODEL vs rope: scope for a line
      9        outside the model's domain (cyclic superclass relation): not compared
      11 12 13 SPEC vs CPython: scope tree / end lines / names      14  SPEC vs CPython: lookups
-     21 23 24 inside the theorems' domain but MODEL and SPEC differ (tree / names / lookups) *)
+     21 23 24 inside the theorems' domain but MODEL and SPEC differ (tree / names / lookups)
+     22 25    inside the domain of the layout theorems but MODEL and SPEC differ (end lines / scope for a line) *)
 Definition run_case (c : case) : N :=
   let rt := rope_tree (c_prog c) in
   let st := spec_tree (nlines (c_layout c)) (c_prog c) in
@@ -110,7 +111,22 @@ Definition run_case (c : case) : N :=
                                                         then Some (rope_lookup bi (inh_of (fst (rope_inh bi rt (c_idents c)))) rt (fst ps) x)
                                                         else None) (c_idents c)) (r_all rt))
                           (map (map Some) sl))
-               then 24 else 0
+               then 24
+          else if ends_ok (c_layout c) rt st then
+            (* the layout hypotheses of C15_scope_ends_agree / C15_scope_for_line hold: ends and line scopes coincide *)
+            let ce := cmp_scopes true (model_scopes (c_layout c) rt)
+                        (map (fun o => match o with (p0, k0, e0, _) => (p0, k0, e0, []) end) (spec_scopes st)) in
+            if N.eqb ce 1 || N.eqb ce 2
+            then 22
+            else if lines_ok (c_layout c) rt
+                    && negb (forallb (fun i =>
+                               let l := N.of_nat (S i) in
+                               li_empty (line_at (c_layout c) l)
+                               || path_eqb (strip_comps rt (rope_scope_for_line (c_layout c) rt l))
+                                           (spec_scope_for_line st [] l))
+                             (seq 0 (length (c_layout c))))
+            then 25 else 0
+          else 0
         else 0.
 Close Scope N_scope.
 
@@ -143,3 +159,11 @@ Definition spec_mismatches (cs : list case) : list (N * N) := spec_mismatches_fr
 (* which cases are inside the domain of the theorems (1) or not (0), for the evidence *)
 Definition in_domain (cs : list case) : list N :=
   map (fun c => if in_fragment_C15 (c_prog c) then 1%N else 0%N) cs.
+(* 0 outside the fragment; 1 inside; 2 also [ends_ok]; 3 also [lines_ok] (domain of C15_scope_for_line) *)
+Definition in_domains (cs : list case) : list N :=
+  map (fun c =>
+         let rt := rope_tree (c_prog c) in
+         let st := spec_tree (nlines (c_layout c)) (c_prog c) in
+         if in_fragment_C15 (c_prog c)
+         then if ends_ok (c_layout c) rt st then (if lines_ok (c_layout c) rt then 3 else 2) else 1
+         else 0)%N cs.
